@@ -214,6 +214,10 @@ fn histories(thorough: bool) -> Vec<Hist> {
     // the deterministic output too
     v.push(mk("default", Wl::W1, vec![], vec![(12, Op::Unroutable(SERVER, 1200)), (16, Op::Unroutable(CLIENT, 300)), (40, Op::Unroutable(SERVER, 60))], "unroutable-datagrams"));
     v.push(mk("cidlife", Wl::W2, vec![], vec![(10, Op::Unroutable(SERVER, 900)), (30, Op::Unroutable(SERVER, 900))], "unroutable-datagrams"));
+    // zero-latency link: round-trip times of a few nanoseconds (pacing arithmetic rounds to zero)
+    v.push(mk("lat0", Wl::W2, vec![], vec![], "none"));
+    v.push(mk("lat0", Wl::W2, vec![(0, 4), (2, 0), (7, 0)], vec![], "none"));
+    v.push(mk("lat0", Wl::W6, vec![(3, 0)], vec![], "none"));
     // the peer goes silent while connection IDs keep expiring (timers must keep settling)
     v.push(mk("cidlife", Wl::W1, vec![], vec![(30, Op::Blackhole(SERVER))], "server-silent@30"));
     v.push(mk("cidlife", Wl::W2, vec![], vec![(24, Op::Blackhole(CLIENT))], "client-silent@24"));
@@ -255,7 +259,7 @@ pub fn main(args: &Args) -> ! {
             runs.push(Run { h: i, shift: Duration::from_secs(sh), extra: None, drained_part: false });
         }
         // insertion points only for the first histories in quick (they dominate the cost)
-        let ins = thorough || i < 31;
+        let ins = thorough || i < 34;
         if ins {
             let steps = base[i].1.min(if thorough { 400 } else { 120 });
             for j in 0..steps {
@@ -265,7 +269,7 @@ pub fn main(args: &Args) -> ! {
                 }
             }
         }
-        if i < 31 || thorough {
+        if i < 34 || thorough {
             runs.push(Run { h: i, shift: Duration::ZERO, extra: None, drained_part: true });
         }
     }
